@@ -270,6 +270,7 @@ def make_fit_harness(cdc: str, with_expr: bool, methods=("leastsq",), probe_last
         if with_expr and len(names) >= 2:
             exprs = {names[1]: "2 * %s" % names[0]}
 
+        exprs_before = dict(exprs)
         begun, handed = [], []
 
         def minimize(fn, params, method=None, args=(), max_nfev=None, **kw):
@@ -324,6 +325,7 @@ def make_fit_harness(cdc: str, with_expr: bool, methods=("leastsq",), probe_last
         eng.check(ok, "fit:completes", lambda: "%s: %s" % (type(res).__name__, res))
         if not ok:
             return
+        eng.check(exprs == exprs_before, "fit:the constraint expressions passed in are left untouched", lambda: "%r -> %r" % (exprs_before, exprs))
         eng.check(len(begun) == len(methods), "fit:one fit per method/weight combination")
         # the optimiser is handed the free parameters of the circuit passed in as varying and the fixed ones as constant
         for k, (e, m) in enumerate(idents.items()):
@@ -333,7 +335,11 @@ def make_fit_harness(cdc: str, with_expr: bool, methods=("leastsq",), probe_last
                         eng.check(h[m[key]] == (not start[k]["fixed"][key]), "fit:exactly the free parameters are varied", lambda: "%s: vary=%r, fixed in the input=%r" % (
                             m[key], h[m[key]], start[k]["fixed"][key]))
         for later in begun[1:]:
+            eng.check(set(later) == set(begun[0]), "fit:every method/weight combination is handed the same free and constrained parameters",
+                      lambda: "%r vs %r" % (sorted(later), sorted(begun[0])))
             for nm, v in later.items():
+                if nm not in begun[0]:
+                    continue
                 eng.check(same(v, begun[0][nm]), "fit:every method/weight combination starts from the values of the circuit passed in", lambda: nm)
         check_result(eng, res, d, fs, zs, unmasked, "fit", circuit=res.circuit)
         same_snapshot(eng, before, snapshot(d), "fit")
